@@ -708,6 +708,113 @@ def _defunctionalise(body):
     return n
 
 
+def _fold_prehashed_twins(raw, helpers, by_path):
+    """`fn f(&self, v) { let h = self.g(v)?; self.f_with(h, v) }` -- a function of the pinned tree whose body is now "compute g(v), hand it and v to a new helper" -- and,
+    elsewhere, a caller that already holds `h = self.g(v)?` (or `.unwrap()`) and calls `self.f_with(h, v)` itself so as not to compute g twice: that call *is* `self.f(v)`
+    (g has succeeded on this path, and f does nothing but compute it again).  It is rewritten into the call of f, which the rules know.  Returns the list of (caller, helper, f)."""
+    import types
+    from .mir import Body, peel, is_call
+    from . import seqeval
+    stub = types.SimpleNamespace(wrapper_fields={})
+    twins = {}       # helper path -> (f path, g callee, number of leading args (self))
+    for F in raw["bodies"]:
+        if F["path"] in helpers or F.get("kind") not in ("Fn", "AssocFn") or F.get("argc", 0) < 2:
+            continue
+        calls = [(bi, bb["term"]) for bi, bb in enumerate(F["blocks"]) if bb["term"].get("k") == "call" and not bb.get("cleanup")]
+        names = [(t.get("res") or t.get("callee") or "") for _, t in calls]
+        hs = [(bi, t) for (bi, t), n in zip(calls, names) if n in helpers]
+        other = [n for n in names if n not in helpers and not re.search(r"Try>?::branch$", n) and not re.search(r"FromResidual(<.*>)?>?::from_residual$", n)]
+        if os.environ.get("PV_DEBUG_FOLD") and hs:
+            print("FOLD cand", F["path"], names)
+        if len(hs) != 1 or len(other) != 1 or len(calls) > 4:
+            continue
+        try:
+            fb = Body(F, stub)
+            hbi, ht = hs[0]
+            hc = [c for c in fb.calls() if c.bb == hbi][0]
+            gcs = [c for c in fb.calls() if (c.res or c.callee) == other[0]]
+            if len(gcs) != 1 or len(hc.args) != F["argc"] + 1:
+                continue
+            g = gcs[0]
+            params = [("param", i + 1) for i in range(F["argc"])]
+            # g(self, v..) and helper(self, <payload of g>, v..), and the helper's result is f's result
+            if [peel(a) for a in g.args] != params:
+                continue
+            if peel(hc.args[0]) != params[0] or [peel(a) for a in hc.args[2:]] != params[1:]:
+                continue
+            if peel(seqeval._unwrap_payload(hc.args[1], None, fb), transparent=[]) != g.result_term():
+                continue
+            if peel(fb.term_local(0), transparent=[]) != hc.result_term():
+                # the result may travel through the return place of the `?` join: every non-error return is the helper's result
+                alts = fb.var_alts(peel(fb.term_local(0), transparent=[])[1]) if peel(fb.term_local(0), transparent=[])[0] == "var" else []
+                if not alts or not all(a == hc.result_term() or is_call(peel(a, transparent=[]), "FromResidual::from_residual") for a in alts):
+                    continue
+            twins[ht.get("res") or ht.get("callee")] = (F["path"], g.res or g.callee)
+        except Exception:
+            if os.environ.get("PV_DEBUG_FOLD"):
+                import traceback; traceback.print_exc()
+            continue
+    done = []
+    if not twins:
+        return done
+    for G in raw["bodies"]:
+        if G["path"] in helpers or any(G["path"] == fp for fp, _ in twins.values()):
+            continue
+        sites = [(bi, bb["term"]) for bi, bb in enumerate(G["blocks"]) if bb["term"].get("k") == "call" and not bb.get("cleanup") and (bb["term"].get("res") or bb["term"].get("callee")) in twins]
+        if not sites:
+            continue
+        try:
+            gb = Body(G, stub)
+            hb, res_ = gb, (lambda t_: peel(t_))
+            if G.get("kind") == "Closure" and "::{closure#" in G["path"]:
+                # the values reach the closure as captures: what they are is written where the closure is made
+                parent = by_path.get(G["path"].rsplit("::{closure#", 1)[0])
+                if parent is None:
+                    continue
+                pb = Body(parent, stub)
+                caps = None
+                for bb_ in parent["blocks"]:
+                    for st_ in bb_["stmts"]:
+                        if st_["k"] == "assign" and st_["rv"].get("k") == "agg" and st_["rv"].get("agg") == "closure" and st_["rv"].get("def") == G["path"]:
+                            caps = [pb.term_operand(o) for o in st_["rv"]["ops"]]
+                if caps is None:
+                    continue
+                hb = pb
+
+                def res_(t_, caps=caps):
+                    t_ = peel(t_)
+                    if isinstance(t_, tuple) and len(t_) == 3 and t_[0] == "field" and str(t_[2]).isdigit() and peel(t_[1]) == ("param", 1) and int(t_[2]) < len(caps):
+                        return peel(caps[int(t_[2])])
+                    return ("not-a-capture", t_)          # (never equal to a term of the parent body)
+            for bi, t in sites:
+                fpath, gname = twins[t.get("res") or t.get("callee")]
+                c = [x for x in gb.calls() if x.bb == bi][0]
+                x_ = res_(c.args[1])
+                if hb is not gb and isinstance(x_, tuple) and x_ and x_[0] == "not-a-capture":
+                    continue        # in a closure the hash must be a captured value (a term of the closure body says nothing about the parent's blocks)
+                h = peel(seqeval._unwrap_payload(peel(x_, transparent=["Result::unwrap", "Result::expect"]), None, hb), transparent=["Result::unwrap", "Result::expect"])
+                if not (isinstance(h, tuple) and h and h[0] == "call"):
+                    continue
+                hcall = [x for x in hb.calls() if x.bb == h[3]]
+                if len(hcall) != 1 or (hcall[0].res or hcall[0].callee) != gname:
+                    continue
+                same = len(hcall[0].args) == len(c.args) - 1 and peel(hcall[0].args[0]) == res_(c.args[0]) and \
+                    all(peel(a) == res_(b_) for a, b_ in zip(hcall[0].args[1:], c.args[2:]))
+                if not same:
+                    continue
+                t["args"] = [t["args"][0]] + t["args"][2:]
+                for k_ in ("callee", "callee_args", "res", "res_args"):
+                    t[k_] = fpath
+                t["res_kind"] = "item"
+                t["inl"] = "folded"
+                done.append((G["path"], "folded:" + fpath))
+        except Exception:
+            if os.environ.get("PV_DEBUG_FOLD"):
+                import traceback; traceback.print_exc()
+            continue
+    return done
+
+
 def inline_new_helpers(raw, baseline=None, keep=None):
     """Returns the list of (caller path, helper path) pairs that were inlined (raw is modified in place)."""
     if baseline is None:
@@ -754,6 +861,7 @@ def inline_new_helpers(raw, baseline=None, keep=None):
         helpers = {p_ for p_ in helpers if not keep(p_)}
     if not helpers:
         return done
+    done += _fold_prehashed_twins(raw, helpers, by_path)
     pristine = {p: copy.deepcopy(by_path[p]) for p in helpers}
     for b in raw["bodies"]:
         for _ in range(MAX_DEPTH):
